@@ -559,8 +559,8 @@ def c09_7(ctx):
 
 def c09_8(ctx):
     """MEMO: an address / encoding computed for one network (or payload) is not remembered and handed out for another"""
-    from sa.memo import memo_obligation
-    return memo_obligation(ctx, ["script", "bech32", "helper"], "an address computed for one network would be returned for another")
+    from sa.memo import cache_obligation
+    return cache_obligation(ctx, ["script", "bech32", "helper", "pecc", "tx"], "an address computed for one network would be returned for another")
 
 
 def c09_9(ctx):
@@ -676,7 +676,23 @@ def c09_11(ctx):
     return [ctx.ok(spec, "v0/20 -> P2WPKH, v0/32 -> P2WSH, v1/32 -> P2TR, all other (version, length) cells refused (%d cells)" % n, fn, mod, key="segwit-dispatch")]
 
 
+def c09_12(ctx):
+    """SET-ORDER: no ordered result (list, serialisation, yielded sequence) of the modules this property is anchored in takes its
+    order from the iteration order of a set"""
+    from sa.setorder import setorder_obligation
+    return setorder_obligation(ctx, ["helper", "bech32", "script", "pecc", "tx"], "the same inputs give different output from run to run")
+
+
+def c09_13(ctx):
+    """SHARED necessary conditions over the modules this property is anchored in: FALSY-DEFAULT, MUTABLE-DEFAULT, IDENTITY, ALIAS,
+    CTOR-FORWARD (sa/shared.py)"""
+    from sa.shared import shared_obligations
+    return shared_obligations(ctx, ["helper", "bech32", "script", "pecc", "tx"], "the result would depend on something other than the arguments and the object's current state")
+
+
 OBLIGATIONS = [
+    ("C09.13", "SHARED", c09_13),
+    ("C09.12", "SET-ORDER", c09_12),
     ("C09.11", "CELLS dispatch", c09_11),
     ("C09.10", "COUNT leading zeros", c09_10),
     ("C09.1", "GUARD", c09_1),
